@@ -641,14 +641,14 @@ func main() {
 		n int
 		p gparams
 	}{
-		{40, gparams{kind: "guarded-linear-small", nkeys: 3, nops: 8, guarded: true, prunes: 4, restarts: 1, maxWrites: 2}},
-		{60, gparams{kind: "guarded-linear", nkeys: 6, nops: 14, guarded: true, prunes: 4, restarts: 1, empties: 1, maxWrites: 4}},
-		{60, gparams{kind: "guarded-forks", nkeys: 5, nops: 14, guarded: true, forks: 4, prunes: 4, restarts: 1, empties: 1, maxWrites: 3}},
-		{30, gparams{kind: "guarded-levels", nkeys: 4, nops: 12, guarded: true, prunes: 6, bigSteps: true, maxWrites: 3}},
-		{40, gparams{kind: "free-linear", nkeys: 4, nops: 12, sameVal: 5, prunes: 4, restarts: 1, empties: 2, maxWrites: 3}},
-		{60, gparams{kind: "free-forks", nkeys: 5, nops: 14, sameVal: 3, forks: 5, prunes: 4, restarts: 1, empties: 3, maxWrites: 3}},
-		{20, gparams{kind: "free-levels", nkeys: 4, nops: 12, sameVal: 2, forks: 2, prunes: 6, empties: 2, bigSteps: true, maxWrites: 3}},
-		{10, gparams{kind: "guarded-large", nkeys: 12, nops: 30, guarded: true, forks: 2, prunes: 3, maxWrites: 6}},
+		{30, gparams{kind: "guarded-linear-small", nkeys: 3, nops: 8, guarded: true, prunes: 4, restarts: 1, maxWrites: 2}},
+		{40, gparams{kind: "guarded-linear", nkeys: 6, nops: 14, guarded: true, prunes: 4, restarts: 1, empties: 1, maxWrites: 4}},
+		{40, gparams{kind: "guarded-forks", nkeys: 5, nops: 14, guarded: true, forks: 4, prunes: 4, restarts: 1, empties: 1, maxWrites: 3}},
+		{20, gparams{kind: "guarded-levels", nkeys: 4, nops: 12, guarded: true, prunes: 6, bigSteps: true, maxWrites: 3}},
+		{30, gparams{kind: "free-linear", nkeys: 4, nops: 12, sameVal: 5, prunes: 4, restarts: 1, empties: 2, maxWrites: 3}},
+		{40, gparams{kind: "free-forks", nkeys: 5, nops: 14, sameVal: 3, forks: 5, prunes: 4, restarts: 1, empties: 3, maxWrites: 3}},
+		{15, gparams{kind: "free-levels", nkeys: 4, nops: 12, sameVal: 2, forks: 2, prunes: 6, empties: 2, bigSteps: true, maxWrites: 3}},
+		{6, gparams{kind: "guarded-large", nkeys: 12, nops: 30, guarded: true, forks: 2, prunes: 3, maxWrites: 6}},
 	}
 	for _, s := range streams {
 		for i := 0; i < s.n*mult; i++ {
